@@ -184,3 +184,95 @@ Proof.
   repeat match goal with |- context [if ?b then _ else _] => destruct b end;
   repeat match goal with |- context [match ?x with Some _ => _ | None => _ end] => destruct x end; exact Hin.
 Qed.
+
+(** * Exact characterisation for reports that list every shard at most once
+      (a NodeHost runs at most one replica per shard, so real reports have this shape) *)
+Definition kill_cond (view : gmap N shard) (ci : shard_info) : bool :=
+  match view !! si_shard ci with
+  | None => false
+  | Some ec =>
+    if si_pending ci || si_incomplete ci
+    then negb (bool_decide (size (s_reps ec) = 0%nat)) && (0 <? s_cci ec) && kill_required ec ci
+    else kill_required ec ci
+  end.
+
+Lemma kill_cond_stray view ci : kill_cond view ci = true -> stray view ci.
+Proof.
+  unfold kill_cond, stray. destruct (view !! si_shard ci) as [ec|]; [|done]. intros H. exists ec. split; [done|].
+  apply kill_required_spec. destruct (si_pending ci || si_incomplete ci); [|done].
+  by apply andb_true_iff in H as [_ H].
+Qed.
+
+Lemma update_entry_exact tick view tk ci view' tk' :
+  update_entry tick (view, tk) ci = Some (view', tk') ->
+  tk' = tk ++ (if kill_cond view ci then [ci] else []) /\ (forall s, s <> si_shard ci -> view' !! s = view !! s).
+Proof.
+  unfold update_entry, kill_cond.
+  destruct (si_pending ci) eqn:Hp; cbn [orb].
+  { destruct (view !! si_shard ci) as [ec|]; [|intros [= <- <-]; by rewrite app_nil_r].
+    destruct (negb _ && _ && kill_required ec ci); intros [= <- <-]; [done|by rewrite app_nil_r]. }
+  destruct (si_incomplete ci) eqn:Hi; cbn [negb].
+  { destruct (view !! si_shard ci) as [ec|]; [|intros [= <- <-]; by rewrite app_nil_r].
+    destruct (negb _ && _ && kill_required ec ci); intros [= <- <-]; [done|by rewrite app_nil_r]. }
+  destruct (view !! si_shard ci) as [ec|] eqn:Ev.
+  - unfold sync_shard. destruct (si_cci ci <? s_cci ec) eqn:Hlt.
+    + cbn [andb]. destruct (kill_required ec ci); intros [= <- <-]; (split; [done || by rewrite app_nil_r|]);
+        intros s Hs; by rewrite lookup_insert_ne.
+    + assert (forall c' (b : bool), s_cci c' = si_cci ci -> (if b && kill_required c' ci then Some (<[si_shard ci:=c']> view, tk ++ [ci])
+                 else Some (<[si_shard ci:=c']> view, tk)) = Some (view', tk') ->
+               tk' = tk ++ (if kill_required ec ci then [ci] else []) /\ (forall s, s <> si_shard ci -> view' !! s = view !! s)) as Hgen.
+      { intros c' b Hc' H. assert (kill_required c' ci = false) as Hk.
+        { unfold kill_required. rewrite Hc'. by rewrite N.leb_refl. }
+        assert (kill_required ec ci = false) as Hk2.
+        { unfold kill_required. apply N.ltb_ge in Hlt. by rewrite (proj2 (N.leb_le _ _) Hlt). }
+        rewrite Hk, andb_false_r in H. injection H as <- <-. rewrite Hk2, app_nil_r. split; [done|].
+        intros s Hs. by rewrite lookup_insert_ne. }
+      destruct ((s_cci ec =? si_cci ci) && _); [done|].
+      destruct (negb (bool_decide (map_Forall _ _))); [done|].
+      destruct (bool_decide (NoDup _)); [|done]. apply (Hgen _ false). reflexivity.
+  - intros [= <- <-]. rewrite app_nil_r. split; [done|]. intros s Hs. by rewrite lookup_insert_ne.
+Qed.
+
+Lemma kill_cond_ext view view' ci : view' !! si_shard ci = view !! si_shard ci -> kill_cond view' ci = kill_cond view ci.
+Proof. unfold kill_cond. by intros ->. Qed.
+
+Lemma filter_ext_in {A} (P1 P2 : A -> Prop) `{!∀ x, Decision (P1 x), !∀ x, Decision (P2 x)} (l : list A) :
+  Forall (λ x, P1 x <-> P2 x) l -> filter P1 l = filter P2 l.
+Proof.
+  induction l as [|x l IH]; intros HF; [done|]. inversion HF as [|? ? Hx Hl]; subst.
+  rewrite !filter_cons. rewrite (IH Hl). destruct (decide (P1 x)) as [H1|H1]; destruct (decide (P2 x)) as [H2|H2]; try done; tauto.
+Qed.
+
+Lemma update_entries_exact tick cis : forall view tk view' tk',
+  NoDup (si_shard <$> cis) ->
+  update_entries tick (view, tk) cis = Some (view', tk') ->
+  tk' = tk ++ filter (λ ci, kill_cond view ci = true) cis.
+Proof.
+  induction cis as [|ci cis IH]; intros view tk view' tk' Hnd H; cbn [update_entries] in H.
+  - injection H as <- <-. by rewrite app_nil_r.
+  - destruct (update_entry tick (view, tk) ci) as [[v1 tk1]|] eqn:E; [|done].
+    apply update_entry_exact in E as [-> Hsame]. cbn [fmap list_fmap] in Hnd. apply list.NoDup_cons in Hnd as [Hnotin Hnd].
+    rewrite (IH _ _ _ _ Hnd H). rewrite <- app_assoc. f_equal.
+    rewrite filter_cons.
+    assert (filter (λ c, kill_cond v1 c = true) cis = filter (λ c, kill_cond view c = true) cis) as ->.
+    { apply filter_ext_in. apply list.Forall_forall. intros c Hc.
+      rewrite (kill_cond_ext view v1 c); [done|]. apply Hsame. intros Heq. apply Hnotin. rewrite <- Heq.
+      apply elem_of_list_fmap. by exists c. }
+    destruct (kill_cond view ci); [rewrite decide_True by done|rewrite decide_False by done]; done.
+Qed.
+
+Lemma report_kill_list_exact P d r d' v :
+  NoDup (si_shard <$> rp_infos r) ->
+  db_step P d (CReport r) = SOk d' v ->
+  d_kill d' = filter (λ k, k_addr k ≠ rp_addr r) (d_kill d) ++
+              ((λ ci, mkKill (si_shard ci) (si_replica ci) (rp_addr r)) <$> filter (λ ci, kill_cond (d_view d) ci = true) (rp_infos r)).
+Proof.
+  intros Hnd. unfold db_step. destruct (d_failed d); [done|]. unfold apply_report.
+  destruct (view_update _ _ _ _) as [[view' kill']|] eqn:E; [|done]. intros [= <- _].
+  unfold view_update in E. cbn [stamp rp_infos rp_addr] in E.
+  destruct (update_entries (d_tick d) (d_view d, []) (rp_infos r)) as [[v1 tk]|] eqn:E1; [|done].
+  apply (update_entries_exact _ _ _ _ _ _ Hnd) in E1. cbn [app] in E1. subst tk. injection E as _ <-.
+  unfold report_result, on_updated_shard_info, pickup. cbn.
+  repeat match goal with |- context [if ?b then _ else _] => destruct b end;
+  repeat match goal with |- context [match ?x with Some _ => _ | None => _ end] => destruct x end; reflexivity.
+Qed.
